@@ -151,6 +151,23 @@ Fixpoint typecheck (cmds : list command) (st : state) (rd keyed : bool) (s : lis
     else None
   end.
 
+
+(* Fuel: the run is repeated with 8 times the fuel while it answers OutOfFuel, at most [k] times (exec_fuel_mono: a run
+   that ended keeps its result).  Still out of fuel at the cap: (3 cap).  OutOfFuel although the program has a READ for
+   which the harness supplied no data (the implementation's own READ failed while being measured): (5). *)
+Definition count_reads (cmds : list command) : nat :=
+  length (filter (fun c => match c with Cmd name _ => str_eqb (lower name) nm_read end) cmds).
+Fixpoint run_escalating (fmt : str -> str -> res str) (cw : char -> Z) (k fuel : nat) (cmds : list command) (st : state) : sexp :=
+  match run fmt cw fuel st cmds with
+  | OutOfFuel =>
+    if Nat.ltb (length (st_reads st)) (count_reads cmds) then L [A 5%Z]
+    else match k with
+         | O => L [A 3%Z; e_nat fuel]
+         | S k' => run_escalating fmt cw k' (8 * fuel) cmds st
+         end
+  | r => e_res e_state r
+  end.
+
 (* 1: a whole run:  (commands citations reads fmt_table cw_table fuel) *)
 Definition dispatch (fn : Z) (a : sexp) : sexp :=
   match fn with
@@ -161,7 +178,7 @@ Definition dispatch (fn : Z) (a : sexp) : sexp :=
     let fmt := fmt_of (d_fmt (d_nth a 3)) in
     let cw := cw_of (d_cw (d_nth a 4)) in
     let fuel := d_nat (d_nth a 5) in
-    e_res e_state (run fmt cw fuel (initial_state cites reads) cmds)
+    run_escalating fmt cw 3 fuel cmds (initial_state cites reads)
   | 2%Z =>
     let cmds := d_list d_command (d_nth a 0) in
     let st0 := initial_state [] [] in
